@@ -90,8 +90,11 @@ def expect(check, cond, message):
 
 
 def expect_eq(check, got, want, what):
-    # equality, never truthiness; type-strict for bool/None/bytes
-    if type(got) is not type(want) or got != want:
+    # equality, never truthiness; type-strict (True is not 1, None is not b"", a list is not a
+    # tuple) - except that an instance of a SUBCLASS of bytes / tuple with equal content is the
+    # same value (HexBytes for bytes, Nibbles for a tuple): no statement distinguishes them
+    same_type = type(got) is type(want) or (type(want) in (bytes, tuple) and isinstance(got, type(want)))
+    if not same_type or got != want:
         raise Violation(check, f"{what}: got {_short(got)}, expected {_short(want)}")
 
 
